@@ -9,6 +9,10 @@ from . import ir
 from .report import Undecided
 
 
+def ir_names(target):
+    return [n.id for n in ast.walk(target) if isinstance(n, ast.Name)]
+
+
 class Loop:
     def __init__(self, lid, kind, iter_ir, seq, lineno, targets):
         self.id = lid
@@ -32,6 +36,17 @@ class Acc:
         self.home = home            # gen frames where the accumulator was initialised
         self.terms = []             # (term IR, gen frames, dsl frames, lineno)
         self.op = '|'
+
+
+class ListAcc:
+    """A Python list that is filled with .append() (possibly in generation loops) and iterated later: iterating it
+    re-enters the generation context of each append with the loop target bound to the appended expression."""
+
+    def __init__(self, lid, name, home):
+        self.id = lid
+        self.name = name
+        self.home = home
+        self.items = []             # (expr IR, gen frames at the append, lineno)
 
 
 class Fold:
@@ -94,6 +109,7 @@ class Template:
         self.folds = {}
         self.sigs = {}
         self.objs = {}
+        self.lists = {}
         self.submodules = []        # (name IR or None, value IR, gen frames, lineno)
         self.connects = []          # (a IR, b IR, gen frames, lineno)
         self.calls = []             # other call statements: (IR, gen frames, dsl frames, lineno)
@@ -105,6 +121,7 @@ class Template:
         self.returns = []
         self.unsupported = []       # (lineno, reason)
         self.switches = {}          # switch id -> subject IR
+        self.switch_cases = {}      # switch id -> [pattern tuples] in emission order
         self.module_name = None
         self.returns_module = False
 
@@ -314,6 +331,11 @@ class Walker:
 
     def expr_stmt(self, st):
         v = st.value
+        if isinstance(v, ast.Call) and isinstance(v.func, ast.Attribute) and v.func.attr == "append" and len(v.args) == 1 and \
+                isinstance(v.func.value, ast.Name) and self.env.get(v.func.value.id, ('x',))[0] == 'listacc':
+            la = self.t.lists[self.env[v.func.value.id][1]]
+            la.items.append((self.ex(v.args[0]), self.gen, st.lineno))
+            return
         if isinstance(v, ast.Call):
             f = v.func
             # connect(m, a, b)
@@ -422,8 +444,54 @@ class Walker:
                 self.t.objs[oid] = LocalSig(oid, t.id, self.ex(st.value), self.gen, st.lineno)
                 self.bind(t.id, ('obj', oid, t.id))
                 return
+        tmp = self.reduce_or(st.value, st)
+        if tmp is not None:
+            return self.assign_target(t, self.env[tmp], st)
+        if isinstance(t, ast.Name) and isinstance(st.value, ast.List) and not st.value.elts:
+            lid = self.fresh()
+            self.t.lists[lid] = ListAcc(lid, t.id, self.gen)
+            self.bind(t.id, ('listacc', lid))
+            return
         v = self.ex(st.value)
         self.assign_target(t, v, st)
+
+    def reduce_or(self, node, st):
+        """functools.reduce(operator.or_, (ELT for T in ITER), INIT) -> the accumulator loop it abbreviates.
+        Returns the name of a temporary holding the accumulator, or None when the call has another shape."""
+        if not (isinstance(node, ast.Call) and ast.unparse(node.func) in ("reduce", "functools.reduce") and
+                len(node.args) == 3 and not node.keywords):
+            return None
+        fn, seq, init = node.args
+        is_or = ast.unparse(fn) in ("operator.or_", "or_", "operator.__or__")
+        if isinstance(fn, ast.Lambda) and len(fn.args.args) == 2 and isinstance(fn.body, ast.BinOp) and \
+                isinstance(fn.body.op, ast.BitOr):
+            a, b = (x.arg for x in fn.args.args)
+            is_or = {ast.unparse(fn.body.left), ast.unparse(fn.body.right)} == {a, b}
+        if not is_or or not isinstance(seq, (ast.GeneratorExp, ast.ListComp)) or len(seq.generators) != 1 or \
+                seq.generators[0].is_async:
+            return None
+        g = seq.generators[0]
+        tmp = f"__reduce_{self.fresh()}"
+        body = [ast.AugAssign(target=ast.Name(id=tmp, ctx=ast.Store()), op=ast.BitOr(), value=seq.elt)]
+        for test in reversed(g.ifs):
+            body = [ast.If(test=test, body=body, orelse=[])]
+        stmts = [ast.Assign(targets=[ast.Name(id=tmp, ctx=ast.Store())], value=init),
+                 ast.For(target=g.target, iter=g.iter, body=body, orelse=[])]
+        for s in stmts:
+            for n in ast.walk(s):
+                if not hasattr(n, "lineno"):
+                    n.lineno = st.lineno
+                    n.col_offset = 0
+                    n.end_lineno = getattr(st, "end_lineno", st.lineno)
+                    n.end_col_offset = 0
+        saved = {nm: self.env.get(nm) for nm in ir_names(g.target)}
+        self.block(stmts)
+        for nm, v in saved.items():         # comprehension targets do not leak
+            if v is None:
+                self.env.pop(nm, None)
+            else:
+                self.env[nm] = v
+        return tmp
 
     def assign_target(self, t, v, st):
         if isinstance(t, ast.Name):
@@ -502,6 +570,28 @@ class Walker:
     def emit(self, domain, value_node, st):
         items = value_node.elts if isinstance(value_node, (ast.List, ast.Tuple)) else [value_node]
         for it in items:
+            if isinstance(it, (ast.ListComp, ast.GeneratorExp)) and len(it.generators) == 1 and \
+                    isinstance(st, ast.AugAssign):
+                # m.d.dom += [stmt for T in ITER if C]  ==  for T in ITER: if C: m.d.dom += stmt
+                g = it.generators[0]
+                body = [ast.AugAssign(target=st.target, op=ast.Add(), value=it.elt)]
+                for test in reversed(g.ifs):
+                    body = [ast.If(test=test, body=body, orelse=[])]
+                loop = ast.For(target=g.target, iter=g.iter, body=body, orelse=[])
+                for n in ast.walk(loop):
+                    if not hasattr(n, "lineno"):
+                        n.lineno = st.lineno
+                        n.col_offset = 0
+                        n.end_lineno = getattr(st, "end_lineno", st.lineno)
+                        n.end_col_offset = 0
+                saved = {nm: self.env.get(nm) for nm in ir_names(g.target)}
+                self.block([loop])
+                for nm, v in saved.items():
+                    if v is None:
+                        self.env.pop(nm, None)
+                    else:
+                        self.env[nm] = v
+                continue
             if isinstance(it, ast.IfExp):
                 cond = self.ex(it.test)
                 saved = self.gen
@@ -514,7 +604,8 @@ class Walker:
             if isinstance(it, ast.Call) and isinstance(it.func, ast.Attribute) and it.func.attr == "eq" \
                     and len(it.args) == 1:
                 tgt = self.ex(it.func.value)
-                val = self.ex(it.args[0])
+                tmp = self.reduce_or(it.args[0], st)
+                val = self.env[tmp] if tmp is not None else self.ex(it.args[0])
                 self.emit_driver(domain, tgt, val, getattr(it, "lineno", st.lineno))
             else:
                 e = self.ex(it)
@@ -599,6 +690,7 @@ class Walker:
             sw = here[-1]
             if kind == "Case":
                 frame = ('case', sw[1], tuple(args), st.lineno)
+                self.t.switch_cases.setdefault(sw[1], []).append(tuple(args))
             else:
                 frame = ('default', sw[1])
             # replace the 'switch' frame by the case frame for the body
@@ -639,9 +731,45 @@ class Walker:
                     out.setdefault(n.target.id, []).append(n)
         return out
 
+    def for_listacc(self, st, accs):
+        """for t in xs / for a, b in zip(xs, ys): replay the generation context of every append."""
+        n = {len(a.items) for a in accs}
+        if len(n) != 1:
+            self.unsupported(st, "zip over lists with different numbers of append sites")
+            return
+        for k in range(n.pop()):
+            frames = {a.items[k][1][len(a.home):] for a in accs}
+            if len(frames) != 1 or any(a.home != accs[0].home for a in accs):
+                self.unsupported(st, "zip over lists that are not filled in the same generation context")
+                return
+            extra = frames.pop()
+            if len(accs) == 1:
+                value = accs[0].items[k][0]
+            else:
+                value = ('tuple', tuple(a.items[k][0] for a in accs))
+            saved_gen, saved_env, saved_bc = self.gen, dict(self.env), dict(self.bind_ctx)
+            self.gen = self.gen + extra
+            self.assign_target(st.target, value, st)
+            self.block(st.body)
+            self.gen = saved_gen
+            # locals of the replayed body do not leak into the next replay
+            for name in list(self.env):
+                if name not in saved_env:
+                    del self.env[name]
+
     def for_(self, st):
         if st.orelse:
             self.unsupported(st, "for/else")
+        # iteration over an append-built list (or a zip of such lists)
+        src = st.iter
+        names_ = []
+        if isinstance(src, ast.Name):
+            names_ = [src.id]
+        elif isinstance(src, ast.Call) and isinstance(src.func, ast.Name) and src.func.id == "zip" and \
+                all(isinstance(a, ast.Name) for a in src.args) and src.args:
+            names_ = [a.id for a in src.args]
+        if names_ and all(self.env.get(nm, ('x',))[0] == 'listacc' for nm in names_):
+            return self.for_listacc(st, [self.t.lists[self.env[nm][1]] for nm in names_])
         it = self.ex(st.iter)
         lid = self.fresh()
         names = [n.id for n in ast.walk(st.target) if isinstance(n, ast.Name)]
